@@ -13,16 +13,19 @@ import (
 	"fmt"
 	"os"
 	"path/filepath"
+	"regexp"
 	"sort"
 	"strconv"
 	"strings"
 	"testing"
 	"time"
+	"unicode"
 
 	"github.com/go-text/typesetting/di"
 	"github.com/go-text/typesetting/font"
 	"github.com/go-text/typesetting/harfbuzz"
 	"github.com/go-text/typesetting/shaping"
+	ucd "github.com/go-text/typesetting/unicodedata"
 	"pgregory.net/rapid"
 
 	"verif/internal/corpus"
@@ -68,6 +71,7 @@ type summary struct {
 	merged       bool // some cluster has RuneCount != 1 (shaping) / covers several runes (harfbuzz)
 	multi        bool // some cluster has more than one glyph
 	nonMonotone2 bool // cluster level 2 result that is not monotone (allowed)
+	excluded     string // id of the known finding that explains a clause this case fails
 }
 
 // checkShapingOutput is the validity predicate of C01 on a shaping.Output.
@@ -77,7 +81,10 @@ func checkShapingOutput(c *sc.Case, out *shaping.Output) (summary, error) {
 	n := end - start
 	s.glyphs = len(out.Glyphs)
 	if len(out.Glyphs) > sizeBudget(n) {
-		return s, fmt.Errorf("output has %d glyphs for a run of %d runes (budget %d)", len(out.Glyphs), n, sizeBudget(n))
+		if !(ev.Known(findingMorxLengthBudget) && morxGrowthSignature(c, len(out.Glyphs), n)) {
+			return s, fmt.Errorf("output has %d glyphs for a run of %d runes (budget %d)", len(out.Glyphs), n, sizeBudget(n))
+		}
+		s.excluded = findingMorxLengthBudget
 	}
 	// the output reports exactly the requested rune range
 	if out.Runes.Offset != c.RunStart || out.Runes.Count != c.RunEnd-c.RunStart {
@@ -138,7 +145,10 @@ func checkHarfbuzzResult(c *sc.Case, res *sc.HBResult) (summary, error) {
 		return s, fmt.Errorf("len(Info) = %d, len(Pos) = %d", len(res.Info), len(res.Pos))
 	}
 	if len(res.Info) > sizeBudget(n) {
-		return s, fmt.Errorf("output has %d glyphs for a run of %d runes (budget %d)", len(res.Info), n, sizeBudget(n))
+		if !(ev.Known(findingMorxLengthBudget) && morxGrowthSignature(c, len(res.Info), n)) {
+			return s, fmt.Errorf("output has %d glyphs for a run of %d runes (budget %d)", len(res.Info), n, sizeBudget(n))
+		}
+		s.excluded = findingMorxLengthBudget
 	}
 	backward := res.Direction == harfbuzz.RightToLeft || res.Direction == harfbuzz.BottomToTop
 	monotone := true
@@ -156,36 +166,171 @@ func checkHarfbuzzResult(c *sc.Case, res *sc.HBResult) (summary, error) {
 			if !backward && g.Cluster < p || backward && g.Cluster > p {
 				monotone = false
 				if harfbuzz.ClusterLevel(c.ClusterLevel) != harfbuzz.Characters {
+					if ev.Known(findingLevel1Reverse) && level1ReverseSignature(c, res) {
+						// weaker predicate checked by the matcher: monotone once graphemes are merged
+						s.excluded = findingLevel1Reverse
+						continue
+					}
 					return s, fmt.Errorf("glyph %d: cluster %d after %d is not monotone (cluster level %d, backward=%v)", i, g.Cluster, p, c.ClusterLevel, backward)
 				}
 			}
 		}
 	}
-	s.nonMonotone2 = !monotone
+	s.nonMonotone2 = !monotone && s.excluded == ""
 	s.merged = len(res.Info) > 0 && len(distinct) < n
 	return s, nil
 }
 
-// execute runs the case once; returns the oracle verdict and the elapsed time of the call alone.
-func execute(c *sc.Case, face *font.Face) (s summary, verdict error, elapsed time.Duration) {
+// execute runs the case once; returns the oracle verdict (kind tells which clause failed), the
+// recovered panic if any, and the elapsed time of the call alone.
+func execute(c *sc.Case, face *font.Face) (s summary, verdict error, p *sc.Panic, elapsed time.Duration) {
 	t0 := time.Now()
 	switch c.API {
 	case sc.APIHarfbuzz:
-		res, p := sc.RunHarfbuzz(c, face)
+		var res sc.HBResult
+		res, p = sc.RunHarfbuzz(c, face)
 		elapsed = time.Since(t0)
 		if p != nil {
-			return s, fmt.Errorf("%s", p), elapsed
+			return s, fmt.Errorf("%s", p), p, elapsed
 		}
 		s, verdict = checkHarfbuzzResult(c, &res)
 	default:
-		out, p := sc.RunShaping(c, face)
+		var out shaping.Output
+		out, p = sc.RunShaping(c, face)
 		elapsed = time.Since(t0)
 		if p != nil {
-			return s, fmt.Errorf("%s", p), elapsed
+			return s, fmt.Errorf("%s", p), p, elapsed
 		}
 		s, verdict = checkShapingOutput(c, &out)
 	}
-	return s, verdict, elapsed
+	return s, verdict, nil, elapsed
+}
+
+// ---- known findings: matchers that identify the defect, not the property ----
+//
+// A matcher is consulted only when the finding is listed as open in known_findings.json
+// (ev.Known); otherwise the case is reported as a violation. Panic findings are identified by
+// panic site (innermost library frames) + message class, as DESIGN §1.7 prescribes.
+
+const (
+	findingPositionsNotInSync = "C01-positions-not-in-sync-before-positioning"
+	findingArabicConcat       = "C01-arabic-concat-no-prev"
+	findingIndicBaseAtEnd     = "C01-indic-final-reordering-base-at-end"
+	findingLevel1Reverse      = "C01-level1-reverse-graphemes"
+	findingMorxLengthBudget   = "C01-morx-insertion-length-budget"
+)
+
+// opsBudget is the library's operation budget max(1024·n, 16384): the only limit on AAT insertions.
+func opsBudget(n int) int {
+	b := 1024 * n
+	if b < 16384 {
+		b = 16384
+	}
+	return b
+}
+
+// morxGrowthSignature: the face has a morx table and the output, although beyond the length budget,
+// is within what the operation budget lets morx insert (weaker predicate that is still checked).
+func morxGrowthSignature(c *sc.Case, glyphs, n int) bool {
+	info := faceInfo(c)
+	return info != nil && info.Traits.Morx && glyphs <= n+opsBudget(n)+64
+}
+
+var faceIndex map[string]int
+
+func faceInfo(c *sc.Case) *sc.FaceInfo {
+	p := sc.ThePool()
+	if faceIndex == nil {
+		faceIndex = map[string]int{}
+		for i := range p.All {
+			faceIndex[fmt.Sprintf("%s#%d", p.All[i].File, p.All[i].Index)] = i
+		}
+	}
+	if i, ok := faceIndex[fmt.Sprintf("%s#%d", c.Font, c.Index)]; ok {
+		return &p.Info[i]
+	}
+	return nil
+}
+
+var indexEqLength = regexp.MustCompile(`index out of range \[(\d+)\] with length (\d+)`)
+
+// knownPanic returns the id of the finding whose signature the panic carries, or "".
+func knownPanic(p *sc.Panic) string {
+	frames := strings.Split(p.Site, " < ")
+	inner := func(i int, fn string) bool { return i < len(frames) && strings.HasPrefix(frames[i], fn+" ") }
+	switch {
+	case (strings.Contains(p.Value, "slice bounds out of range") || strings.Contains(p.Value, "index out of range")) &&
+		(inner(0, "harfbuzz.(*Buffer).reverseRange") || inner(0, "harfbuzz.(*Buffer).deleteGlyphsInplace")):
+		// Pos indexed with Info's length before clearPositions has re-synchronised them
+		return findingPositionsNotInSync
+	case strings.Contains(p.Value, "index out of range [-1]") && inner(0, "harfbuzz.(*Buffer).findMinCluster") &&
+		inner(1, "harfbuzz.(*Buffer).setGlyphFlags") && inner(2, "harfbuzz.(*Buffer).unsafeToConcat") && inner(3, "harfbuzz.applyArabicJoining"):
+		return findingArabicConcat
+	case inner(0, "harfbuzz.(*indicShapePlan).finalReorderingSyllableIndic"):
+		// info[base] read with base == end == len(info)
+		if m := indexEqLength.FindStringSubmatch(p.Value); m != nil && m[1] == m[2] {
+			return findingIndicBaseAtEnd
+		}
+	}
+	return ""
+}
+
+// graphemeStarts maps every rune index of the run to the index of the first rune of its grapheme,
+// with HarfBuzz's own (simplified) notion of grapheme used when a buffer is reversed to its native
+// direction: marks, ZWJ (+ a following Extended_Pictographic), emoji modifiers, the second of two
+// regional indicators, halfwidth katakana sound marks and tag characters continue a grapheme.
+func graphemeStarts(text []rune, start, end int) map[int]int {
+	cont := make([]bool, end-start)
+	ri := func(r rune) bool { return 0x1F1E6 <= r && r <= 0x1F1FF }
+	for i := start; i < end; i++ {
+		r := text[i]
+		k := i - start
+		switch {
+		case unicode.Is(unicode.M, r):
+			cont[k] = true
+		case 0x1F3FB <= r && r <= 0x1F3FF:
+			cont[k] = true
+		case i != start && ri(r):
+			if ri(text[i-1]) && !cont[k-1] {
+				cont[k] = true
+			}
+		case r == 0x200D:
+			cont[k] = true
+			if i+1 < end && unicode.Is(ucd.Extended_Pictographic, text[i+1]) {
+				i++
+				cont[k+1] = true
+			}
+		case 0xFF9E <= r && r <= 0xFF9F || 0xE0020 <= r && r <= 0xE007F:
+			cont[k] = true
+		}
+	}
+	out := make(map[int]int, end-start)
+	g := start
+	for i := start; i < end; i++ {
+		if !cont[i-start] {
+			g = i
+		}
+		out[i] = g
+	}
+	return out
+}
+
+// level1ReverseSignature tells whether a monotonicity failure at cluster level MonotoneCharacters
+// is the one caused by reverseGraphemes not merging clusters: the cluster sequence becomes monotone
+// as soon as every cluster value is replaced by the start of its grapheme.
+func level1ReverseSignature(c *sc.Case, res *sc.HBResult) bool {
+	if harfbuzz.ClusterLevel(c.ClusterLevel) != harfbuzz.MonotoneCharacters {
+		return false
+	}
+	gs := graphemeStarts(c.Text, c.RunStart, c.RunEnd)
+	backward := res.Direction == harfbuzz.RightToLeft || res.Direction == harfbuzz.BottomToTop
+	for i := 1; i < len(res.Info); i++ {
+		a, b := gs[res.Info[i-1].Cluster], gs[res.Info[i].Cluster]
+		if !backward && b < a || backward && b > a {
+			return false
+		}
+	}
+	return true
 }
 
 // checkCase is the property: it is used by the rapid properties, the fuzz target and the replay.
@@ -197,11 +342,29 @@ func checkCase(t ev.TB, c sc.Case) {
 	if c.API == sc.APIHarfbuzz && !c.InRange() {
 		t.Fatalf("invalid case: harfbuzz-level call with out-of-range bounds")
 	}
+	if ev.Known(findingMorxLengthBudget) {
+		// DESIGN §1.5 (3): once the finding is listed, the value class that triggers it (and costs
+		// minutes per case: the growth is quadratic in time) is no longer executed, but counted
+		start, end := c.Clamped()
+		if info := faceInfo(&c); info != nil && info.Traits.Morx && end-start > 64 {
+			ev.Excluded(findingMorxLengthBudget)
+			ev.Case(false, c, "excluded:"+findingMorxLengthBudget+"(not executed)")
+			return
+		}
+	}
 	ev.Journal(checkName, c)
-	s, verdict, elapsed := execute(&c, face)
+	s, verdict, pnc, elapsed := execute(&c, face)
+	if pnc != nil {
+		if id := knownPanic(pnc); id != "" && ev.Known(id) {
+			ev.JournalDone()
+			ev.Excluded(id)
+			ev.Case(false, c, "excluded:"+id)
+			return
+		}
+	}
 	if verdict == nil && elapsed > slowLimit {
 		// deterministic confirmation before reporting a wall-clock observation
-		_, _, again := execute(&c, face)
+		_, _, _, again := execute(&c, face)
 		if again > slowLimit {
 			verdict = fmt.Errorf("shaping %d runes took %v and %v on re-measurement (limit %v)", len(c.Text), elapsed, again, slowLimit)
 		} else {
@@ -215,6 +378,11 @@ func checkCase(t ev.TB, c sc.Case) {
 	}
 	if verdict != nil {
 		ev.Fail(t, checkName, c, "%v", verdict)
+	}
+	if s.excluded != "" {
+		ev.Excluded(s.excluded)
+		ev.Case(false, c, "excluded:"+s.excluded)
+		return
 	}
 	classify(&c, s)
 }
@@ -237,14 +405,7 @@ func dump(c *sc.Case, face *font.Face) {
 }
 
 func classify(c *sc.Case, s summary) {
-	p := sc.ThePool()
-	var info *sc.FaceInfo
-	for i := range p.All {
-		if p.All[i].File == c.Font && p.All[i].Index == c.Index {
-			info = &p.Info[i]
-			break
-		}
-	}
+	info := faceInfo(c)
 	start, end := c.Clamped()
 	hostile, invalid := false, false
 	for _, r := range c.Text[start:end] {
